@@ -1330,10 +1330,153 @@ fn install_perturbation() {
     metrique_writer_core::verif::set_callback(Some(Box::new(|id| {
         if (10..=13).contains(&id) {
             POINT_HITS[(id - 10) as usize].fetch_add(1, Ordering::Relaxed);
+            if id == 11 && GATE_ME.with(|g| g.get()) {
+                // gated schedule: this thread has taken the keep-alive closure and has not run it yet
+                let mut st = GATE.lock().unwrap();
+                st.0 = true;
+                GATE_CV.notify_all();
+                while !st.1 {
+                    st = GATE_CV.wait(st).unwrap();
+                }
+                return;
+            }
             jitter();
         }
     })));
 }
+
+thread_local! {
+    static GATE_ME: std::cell::Cell<bool> = const { std::cell::Cell::new(false) };
+}
+/// (the gated thread has reached point 11, it may go on)
+static GATE: Mutex<(bool, bool)> = Mutex::new((false, false));
+static GATE_CV: std::sync::Condvar = std::sync::Condvar::new();
+
+const N_GATED: usize = 5;
+const GATED_NAMES: [&str; N_GATED] = [
+    "owner dropped, free flush guard alive, 2 force-flush guards: A held between take and run, B drops the other",
+    "same, the flush guard sits in a wait-mode slot guard and the owner was finished by Instrumented::emit",
+    "same, owner turned into handles, all dropped",
+    "owner alive, flush guard alive: force-flush thread A held between take and run, B drops the owner",
+    "owner dropped, flush guard alive, 3 force-flush guards: A held, B and C drop theirs",
+];
+
+/// A gated schedule (deterministic): thread A drops a force-flush guard and is held at perturbation point 11 (closure
+/// taken, not yet run); then the B threads do their drops; the harness waits a bounded time for them to return, lets A
+/// go on and joins everybody.  In the code as it is, a second force-flush drop blocks on the mutex until A has run the
+/// closure (and appended); a B that returns earlier with the owner gone and nothing appended is what the history
+/// oracles reject (`trace:force-late`).  The bounded wait only costs time in the passing case.
+fn run_gated(kind: u8) -> TraceOut {
+    let setup: Vec<Op> = match kind {
+        0 => vec![Op::Fg, Op::Dg, Op::Dg, Op::Mut(5), Op::Dref],
+        1 => vec![Op::Fg, Op::Open(0, true, 0), Op::Dg, Op::Dg, Op::Gm(0, 9), Op::Fin(1, 0)],
+        2 => vec![Op::Fg, Op::Dg, Op::Dg, Op::Hnd, Op::Cl, Op::Hit(4), Op::Dref, Op::Dref],
+        3 => vec![Op::Fg, Op::Dg, Op::Mut(8)],
+        _ => vec![Op::Fg, Op::Dg, Op::Dg, Op::Dg, Op::Dref],
+    };
+    let case = Case { init: [3, 6], ops: setup };
+    PERTURB.store(kind as u64, Ordering::Relaxed);
+    let hist = Arc::new(Mutex::new(Vec::<String>::new()));
+    let sink = RecSink { hist: Some(hist.clone()), ..Default::default() };
+    let (mut w, done_setup) = setup_world(&case, sink, &hist);
+    let Ok(setup_ops) = done_setup else {
+        return TraceOut { setup: case.ops.clone(), hist: hist.lock().unwrap().clone(), racers: 0, panicked: done_setup.err() };
+    };
+    *GATE.lock().unwrap() = (false, false);
+    let a = w.dgs.pop().expect("gated setup has a force-flush guard");
+    let mut others: Vec<Racer> = vec![];
+    if kind == 3 {
+        others.push(Racer::Own(w.owner.take().unwrap(), 0, 0));
+    } else {
+        for d in w.dgs.drain(..) {
+            others.push(Racer::Dg(d));
+        }
+    }
+    let n_b = others.len();
+    let panics = Arc::new(Mutex::new(Vec::<String>::new()));
+    std::thread::scope(|sc| {
+        let h = hist.clone();
+        let pa = panics.clone();
+        sc.spawn(move || {
+            GATE_ME.with(|g| g.set(true));
+            let log = |s: String| h.lock().unwrap().push(s);
+            if let Err(p) = catch(move || {
+                log("bD".into());
+                drop(a);
+                log("eD".into());
+            }) {
+                pa.lock().unwrap().push(p);
+            }
+            GATE_ME.with(|g| g.set(false));
+        });
+        // wait until A is held (bounded: if A never gets there — no closure to take — go on anyway)
+        {
+            let st = GATE.lock().unwrap();
+            let _ = GATE_CV.wait_timeout_while(st, std::time::Duration::from_secs(5), |st| !st.0).unwrap();
+        }
+        let (tx, rx) = std::sync::mpsc::channel::<()>();
+        for r in others {
+            let h = hist.clone();
+            let pa = panics.clone();
+            let tx = tx.clone();
+            sc.spawn(move || {
+                let log = |s: String| h.lock().unwrap().push(s);
+                if let Err(p) = catch(move || match r {
+                    Racer::Own(o, k, v) => {
+                        log("bR".into());
+                        finish_in(0, 0, o, k, v);
+                        log("eR".into());
+                    }
+                    Racer::Dg(x) => {
+                        log("bD".into());
+                        drop(x);
+                        log("eD".into());
+                    }
+                    _ => unreachable!(),
+                }) {
+                    pa.lock().unwrap().push(p);
+                }
+                let _ = tx.send(());
+            });
+        }
+        // bounded wait for the B threads to return (they block on the mutex in the code as it is)
+        let deadline = std::time::Instant::now() + std::time::Duration::from_millis(120);
+        let mut returned = 0;
+        while returned < n_b {
+            let left = deadline.saturating_duration_since(std::time::Instant::now());
+            if rx.recv_timeout(left).is_err() {
+                break;
+            }
+            returned += 1;
+        }
+        if kind != 3 {
+            GATED_B_RETURNED_WHILE_HELD.fetch_add(returned as u64, Ordering::Relaxed);
+        }
+        // let A run the closure
+        let mut st = GATE.lock().unwrap();
+        st.1 = true;
+        GATE_CV.notify_all();
+    });
+    // whatever is left (flush guards, slot guards) is dropped afterwards, on this thread
+    let log = |s: String| hist.lock().unwrap().push(s);
+    for i in 0..NSLOTS {
+        if let Some(g) = w.guards[i].take() {
+            log(format!("bG:{i}"));
+            drop(g);
+            log(format!("eG:{i}"));
+        }
+    }
+    for f in w.fgs.drain(..) {
+        log("bF".into());
+        drop(f);
+        log("eF".into());
+    }
+    let panicked = panics.lock().unwrap().first().cloned();
+    let h = hist.lock().unwrap().clone();
+    TraceOut { setup: setup_ops, hist: h, racers: n_b + 1, panicked }
+}
+
+static GATED_B_RETURNED_WHILE_HELD: AtomicU64 = AtomicU64::new(0);
 
 enum Racer {
     Own(Owner, u8, u64),
@@ -1351,10 +1494,9 @@ struct TraceOut {
 }
 
 /// Runs the setup on this thread, then drops everything that is left on one thread each.
-fn run_trace(c: &Case, pseed: u64) -> TraceOut {
-    PERTURB.store(pseed, Ordering::Relaxed);
-    let hist = Arc::new(Mutex::new(Vec::<String>::new()));
-    let sink = RecSink { hist: Some(hist.clone()), ..Default::default() };
+/// the single-threaded setup of a trace: runs the valid operations of `c`, logging their observations; returns the
+/// world and the operations executed (or the panic message of the operation that panicked)
+fn setup_world(c: &Case, sink: RecSink, hist: &Arc<Mutex<Vec<String>>>) -> (World, Result<Vec<Op>, String>) {
     let mut w = new_world_with(c.init, sink, ctor_of(&c.ops));
     let mut sh = Shadow::new();
     let mut setup = vec![];
@@ -1383,7 +1525,10 @@ fn run_trace(c: &Case, pseed: u64) -> TraceOut {
         let r = catch(|| w.exec(op));
         let (_, open_ok, ready) = match r {
             Ok(x) => x,
-            Err(p) => return TraceOut { setup, hist: hist.lock().unwrap().clone(), racers: 0, panicked: Some(format!("{}: {p}", op.enc())) },
+            Err(p) => {
+                let msg = format!("{}: {p}", op.enc());
+                return (w, Err(msg));
+            }
         };
         sh.apply(op, open_ok, ready);
         setup.push(*op);
@@ -1408,6 +1553,18 @@ fn run_trace(c: &Case, pseed: u64) -> TraceOut {
             _ => {}
         }
     }
+    (w, Ok(setup))
+}
+
+fn run_trace(c: &Case, pseed: u64) -> TraceOut {
+    PERTURB.store(pseed, Ordering::Relaxed);
+    let hist = Arc::new(Mutex::new(Vec::<String>::new()));
+    let sink = RecSink { hist: Some(hist.clone()), ..Default::default() };
+    let (mut w, done) = setup_world(c, sink, &hist);
+    let setup = match done {
+        Ok(ops) => ops,
+        Err(p) => return TraceOut { setup: vec![], hist: hist.lock().unwrap().clone(), racers: 0, panicked: Some(p) },
+    };
     // a pending future borrows the owner: cancel it (the client would have to, before moving the owner)
     w.fut.take();
     let mut racers: Vec<Racer> = vec![];
@@ -1507,6 +1664,8 @@ fn trace_oracle(hist: &[String], check_slots: bool) -> Option<(String, String)> 
     }
     let (mut refs_out, mut fg_out, mut dg_begun, mut dg_ended, mut inflight) = (1i64, 0i64, 0i64, 0i64, 0i64);
     let (mut plain, mut hits, mut apps) = (0u64, 0u64, 0u64);
+    // owning-reference drops begun and not returned; "some force-flush drop has returned after passing the mutex"
+    let (mut refs_busy, mut forced) = (0i64, false);
     let mut sl: Vec<Sl> = vec![Sl::default(); NSLOTS];
     for (k, ev) in hist.iter().enumerate() {
         let f: Vec<&str> = ev.split(':').collect();
@@ -1516,6 +1675,7 @@ fn trace_oracle(hist: &[String], check_slots: bool) -> Option<(String, String)> 
             "nR" => refs_out += 1,
             "bR" => {
                 refs_out -= 1;
+                refs_busy += 1;
                 inflight += 1
             }
             "nF" => fg_out += 1,
@@ -1528,10 +1688,19 @@ fn trace_oracle(hist: &[String], check_slots: bool) -> Option<(String, String)> 
                 dg_begun += 1;
                 inflight += 1
             }
-            "eR" | "eF" => inflight -= 1,
+            "eF" => inflight -= 1,
+            "eR" => {
+                inflight -= 1;
+                refs_busy -= 1
+            }
             "eD" => {
                 inflight -= 1;
-                dg_ended += 1
+                dg_ended += 1;
+                // the guard cell was alive during this whole drop (a flush guard or an owning reference had not even
+                // begun to drop when it returned), so it went through the mutex: the keep-alive closure has been run
+                if fg_out > 0 || refs_out > 0 {
+                    forced = true
+                }
             }
             "mut" => plain = num(1),
             "hit" => hits = num(1),
@@ -1604,6 +1773,12 @@ fn trace_oracle(hist: &[String], check_slots: bool) -> Option<(String, String)> 
             }
             _ => return Some(("trace:harness".into(), format!("unknown observation {ev}"))),
         }
+        if forced && refs_out == 0 && refs_busy == 0 && apps == 0 {
+            return Some((
+                "trace:force-late".into(),
+                format!("observation {k} ({ev}): a force-flush guard's drop has returned (through the guard mutex) and the owner and all handles have been dropped completely, yet the sink has nothing: the entry is not appended at the moment the last of these drops returns"),
+            ));
+        }
         if inflight == 0 && refs_out == 0 && (fg_out == 0 || dg_ended > 0) && apps == 0 {
             return Some((
                 "trace:late".into(),
@@ -1624,8 +1799,9 @@ fn decode_trace_line(s: &str) -> Option<(Case, u64)> {
     Some((Case::decode(c)?, p.parse().ok()?))
 }
 
-fn trace_stage(rep: &mut Report, args: &Args, rng: &mut Rng, c13: bool, replay: Option<(Case, u64)>) {
+fn trace_stage(rep: &mut Report, args: &Args, rng: &mut Rng, c13: bool, replay: Option<(Case, u64)>, gated_only: Option<u8>) {
     install_perturbation();
+    let only_random = replay.is_some();
     let mut todo: Vec<(Case, u64)> = vec![];
     if let Some((c, p)) = replay {
         for k in 0..300 {
@@ -1651,9 +1827,31 @@ fn trace_stage(rep: &mut Report, args: &Args, rng: &mut Rng, c13: bool, replay: 
     }
     let mut requests = vec![];
     let mut verdicts: Vec<(String, Option<(String, String)>)> = vec![];
-    for (c, p) in &todo {
-        let t = run_trace(c, *p);
-        let line = trace_case_line(&Case { init: c.init, ops: t.setup.clone() }, *p);
+    // gated (deterministic) schedules first
+    let gated_rounds = if gated_only.is_some() { 3 } else if only_random { 0 } else if args.thorough() { 8 } else { 1 };
+    let mut jobs: Vec<(Option<u8>, Case, u64)> = vec![];
+    for _ in 0..gated_rounds {
+        for k in 0..N_GATED as u8 {
+            if gated_only.map(|g| g == k).unwrap_or(true) {
+                jobs.push((Some(k), Case { init: [3, 6], ops: vec![] }, 0));
+            }
+        }
+    }
+    if gated_only.is_none() {
+        jobs.extend(todo.iter().map(|(c, p)| (None, c.clone(), *p)));
+    }
+    for (g, c, p) in &jobs {
+        let (t, line) = match g {
+            Some(k) => {
+                rep.bump(&format!("trace:gated: {}", GATED_NAMES[*k as usize]));
+                (run_gated(*k), format!("gated {k}"))
+            }
+            None => {
+                let t = run_trace(c, *p);
+                let line = trace_case_line(&Case { init: c.init, ops: t.setup.clone() }, *p);
+                (t, line)
+            }
+        };
         rep.case(&line, t.racers >= 2);
         rep.bump(&format!("trace:racers:{}", t.racers.min(9)));
         let pos = |pat: &str| t.hist.iter().position(|e| e.starts_with(pat));
@@ -1674,6 +1872,7 @@ fn trace_stage(rep: &mut Report, args: &Args, rng: &mut Rng, c13: bool, replay: 
         requests.push(format!("trace {NSLOTS} | {}", t.hist.join(" ")));
         verdicts.push((line, v));
     }
+    rep.bump_by("trace:gated: force-flush drops that returned while the closure holder was held (0 in the code as it is)", GATED_B_RETURNED_WHILE_HELD.load(Ordering::Relaxed));
     for (i, h) in TRACE_ENVS.iter().enumerate() {
         rep.bump_by(&format!("trace:racer drops run in: {}", ENV_NAMES[i]), h.load(Ordering::Relaxed));
     }
@@ -1762,6 +1961,7 @@ fn main() {
     let mut rng = Rng::new(args.seed);
     let mut cases: Vec<Case> = vec![];
     let mut trace_replay = None;
+    let mut gated_replay: Option<u8> = None;
     // `--only step` / `--only trace` restrict the run to one stage (used to measure each stage's sensitivity)
     let only = args.extra.get("only").cloned().unwrap_or_default();
     let mut run_traces = only != "step";
@@ -1770,6 +1970,8 @@ fn main() {
         let line = line.split(" ## ").next().unwrap().to_string();
         if line.starts_with("trace ") {
             trace_replay = decode_trace_line(&line);
+        } else if let Some(k) = line.strip_prefix("gated ") {
+            gated_replay = k.trim().parse().ok();
         } else {
             cases.extend(Case::decode(&line));
             run_traces = false;
@@ -1857,7 +2059,7 @@ fn main() {
         }
     }
     if run_traces {
-        trace_stage(&mut rep, &args, &mut rng, c13, trace_replay);
+        trace_stage(&mut rep, &args, &mut rng, c13, trace_replay, gated_replay);
     }
     // targeted search: the model and the code disagree but no property oracle failed — look for a failing
     // input among the neighbours of the disagreeing histories (oracle only, ~10x the quick budget)
